@@ -6,17 +6,24 @@ Import ListNotations.
 Local Open Scope Q_scope.
 
 (* A routine that returns None is observed as []; a NaN row as [FNan; FNan; FNan]. Points are compared with a
-   tolerance relative to the magnitude of the input data. *)
+   tolerance relative to the magnitude `mg` of the input POSITIONS only, without an absolute floor: geometry at scale
+   1e-9 is compared as strictly as geometry at scale 1, and the length of a direction vector (which may be 1e-300 or
+   1e300) does not loosen the comparison of a projection. *)
+Definition close_rel (mg a b : Q) : bool :=
+  Qle_bool (Qabs (a - b)) (tol * Qmax' mg (Qmax' (Qabs a) (Qabs b))).
+Definition fl_close_rel (mg m : Q) (o : fl) : bool := match o with Fin q => close_rel mg m q | _ => false end.
+Definition vec_close_rel mg (m : vec3 Q) (o : list fl) : bool := all2 (fl_close_rel mg) (vlist m) o.
+Definition vecs_close_rel mg (m : list (vec3 Q)) (o : list (list fl)) : bool := all2 (vec_close_rel mg) m o.
 Definition row_opt (mg : Q) (m : option (vec3 Q)) (o : list fl) : bool :=
-  match m with None => match o with [] => true | _ => false end | Some v => vec_close_mag mg v o end.
+  match m with None => match o with [] => true | _ => false end | Some v => vec_close_rel mg v o end.
 Definition row_nan (mg : Q) (m : option (vec3 Q)) (o : list fl) : bool :=
   match m with
   | None => match o with [x; y; z] => fl_is_nan x && fl_is_nan y && fl_is_nan z | _ => false end
-  | Some v => vec_close_mag mg v o
+  | Some v => vec_close_rel mg v o
   end.
 Definition rows_nan mg := all2 (row_nan mg).
 Definition vmag (v : vec3 Q) : Q := Qmax' (Qabs (vx v)) (Qmax' (Qabs (vy v)) (Qabs (vz v))).
-Definition mag (ps : list (vec3 Q)) : Q := fold_left (fun m p => Qmax' m (vmag p)) ps 1.
+Definition mag (ps : list (vec3 Q)) : Q := fold_left (fun m p => Qmax' m (vmag p)) ps 0.
 
 Inductive case :=
 (* project_point_to_line(p, ref, a) and Line(ref, a).project(p): the Line form goes through the constructor,
@@ -31,7 +38,9 @@ Inductive case :=
 | CFromPoints (p1 p2 : vec3 Q) (o : result (list (list fl)))
 (* intersect_lines(p0, q0, p1, q1) and Line.from_points(p0, q0).intersect_line(Line.from_points(p1, q1)) *)
 | CIsect (p0 q0 p1 q1 : vec3 Q) (fn meth : list fl)
-| CIsect2 (p0 q0 p1 q1 : Q * Q) (o : list fl).
+| CIsect2 (p0 q0 p1 q1 : Q * Q) (o : list fl)
+(* a case judged by the oracle only (inputs outside what the exact model can usefully evaluate) *)
+| CSkip.
 
 Definition ref_rows (l : line Q) : list (vec3 Q) := [fst (reference_points QOps l); snd (reference_points QOps l)].
 Definition meth_isect (p0 q0 p1 q1 : vec3 Q) : option (vec3 Q) :=
@@ -43,28 +52,29 @@ Definition meth_isect (p0 q0 p1 q1 : vec3 Q) : option (vec3 Q) :=
 Definition check_case (c : case) : bool :=
   match c with
   | CProj p ref a fn meth =>
-      let m := mag [p; ref; a] in
+      let m := mag [p; ref] in
       row_nan m (project_point_to_line QOps p ref a) fn &&
       res_agree (row_nan m) (rmap (fun l => line_project QOps l p) (line_ctor QOps ref a)) meth
   | CProjStack ps ref a fn meth =>
-      let m := mag (ref :: a :: ps) in
+      let m := mag (ref :: ps) in
       rows_nan m (project_points_to_line QOps ps ref a) fn &&
       res_agree (rows_nan m) (rmap (fun l => line_project_stack QOps l ps) (line_ctor QOps ref a)) meth
   | CProjPairs ps refs alongs rows =>
-      rows_nan (mag (ps ++ refs ++ alongs)) (project_points_to_lines QOps ps refs alongs) rows
+      rows_nan (mag (ps ++ refs)) (project_points_to_lines QOps ps refs alongs) rows
   | CLineCtor point along o =>
-      res_agree (vecs_close_mag (mag [point; along])) (rmap ref_rows (line_ctor QOps point along)) o
+      res_agree (vecs_close_rel (mag [point; along])) (rmap ref_rows (line_ctor QOps point along)) o
   | CFromPoints p1 p2 o =>
-      res_agree (vecs_close_mag (mag [p1; p2])) (rmap ref_rows (line_from_points QOps p1 p2)) o
+      res_agree (vecs_close_rel (mag [p1; p2])) (rmap ref_rows (line_from_points QOps p1 p2)) o
   | CIsect p0 q0 p1 q1 fn meth =>
       let m := mag [p0; q0; p1; q1] in
       row_opt m (intersect_lines QOps p0 q0 p1 q1) fn && row_opt m (meth_isect p0 q0 p1 q1) meth
   | CIsect2 p0 q0 p1 q1 o =>
-      let m := Qmax' 1 (Qmax' (Qmax' (Qabs (fst p0)) (Qabs (snd p0))) (Qmax' (Qmax' (Qabs (fst q0)) (Qabs (snd q0)))
+      let m := (Qmax' (Qmax' (Qabs (fst p0)) (Qabs (snd p0))) (Qmax' (Qmax' (Qabs (fst q0)) (Qabs (snd q0)))
                  (Qmax' (Qmax' (Qabs (fst p1)) (Qabs (snd p1))) (Qmax' (Qabs (fst q1)) (Qabs (snd q1)))))) in
       match intersect_2d_lines QOps p0 q0 p1 q1, o with
       | None, [] => true
-      | Some x, [ox; oy] => fl_close_mag m (fst x) ox && fl_close_mag m (snd x) oy
+      | Some x, [ox; oy] => fl_close_rel m (fst x) ox && fl_close_rel m (snd x) oy
       | _, _ => false
       end
+  | CSkip => true
   end.
